@@ -160,11 +160,10 @@ func (s *SolverSet) Check(asserts []*Term, wantModel bool) (Result, map[string]*
 		return Sat, map[string]*Term{}, "trivial"
 	}
 	key := cacheKey(live)
-	if !wantModel {
-		if r, ok := s.cache[key]; ok {
-			s.Stats.CacheHits++
-			return r, nil, "cache"
-		}
+	if r, ok := s.cache[key]; ok && (!wantModel || r == Unsat) {
+		// an unsat answer needs no model: reuse it also when a model was asked for
+		s.Stats.CacheHits++
+		return r, nil, "cache"
 	}
 	live2 := elimDiv(live)
 	script, vars := Script(live2)
@@ -206,6 +205,7 @@ func (s *SolverSet) Check(asserts []*Term, wantModel bool) (Result, map[string]*
 		r2, _, _ := s.oneShot(context.Background(), "cvc5", []string{"--incremental", fmt.Sprintf("--tlimit-per=%d", s.HardMs)}, script, vars, false, s.HardMs)
 		if r2 == Sat {
 			s.CrossDis++
+			delete(s.cache, key) // never serve a disputed unsat from the cache
 			return Unknown, nil, "solver-disagreement"
 		}
 	}
@@ -371,7 +371,6 @@ func (s *SolverSet) race(script string, vars []*Term, wantModel bool, ft feat) (
 		cands = append(cands, cand{"z3-new", "z3-new", []string{"-in"}})
 		cands = append(cands, cand{"cvc5", "cvc5", []string{"--incremental", tl}})
 		cands = append(cands, cand{"cvc5-int", "cvc5", []string{"--incremental", tl, "--solve-bv-as-int=sum"}})
-		cands = append(cands, cand{"z3-oneshot", "z3", []string{"-in"}})
 	}
 	ch := make(chan raceRes, len(cands))
 	for _, c := range cands {
@@ -391,14 +390,25 @@ func (s *SolverSet) race(script string, vars []*Term, wantModel bool, ft feat) (
 }
 
 func (s *SolverSet) oneShot(ctx context.Context, bin string, args []string, script string, vars []*Term, wantModel bool, ms int) (Result, map[string]*Term, error) {
-	cctx, cancel := context.WithTimeout(ctx, time.Duration(ms)*time.Millisecond+2*time.Second)
+	// The limit is CPU time (ulimit -t), so that a loaded machine does not turn
+	// answers into time-outs; the wall-clock guard is ten times that.
+	cpuS := (ms + 999) / 1000
+	if cpuS < 1 {
+		cpuS = 1
+	}
+	cctx, cancel := context.WithTimeout(ctx, time.Duration(10*cpuS)*time.Second+5*time.Second)
 	defer cancel()
-	cmd := exec.CommandContext(cctx, bin, args...)
+	var clean []string
+	for _, a := range args {
+		if !strings.HasPrefix(a, "--tlimit") {
+			clean = append(clean, a)
+		}
+	}
+	sh := fmt.Sprintf("ulimit -t %d; exec %s %s", cpuS, bin, strings.Join(clean, " "))
+	cmd := exec.CommandContext(cctx, "/bin/bash", "-c", sh)
 	var in bytes.Buffer
 	isZ3 := strings.HasPrefix(bin, "z3")
-	if isZ3 {
-		fmt.Fprintf(&in, "(set-option :timeout %d)\n", ms)
-	} else {
+	if !isZ3 {
 		in.WriteString("(set-option :produce-models true)\n(set-logic ALL)\n")
 	}
 	in.WriteString(script)
